@@ -1641,7 +1641,7 @@ fn generate(tier: &str, rng: &mut Rng) -> Vec<Case> {
         }
     };
     RING_OK.with(|r| r.set(ring_ok));
-    let n_random = if thorough { 16000 } else { 1000 };
+    let n_random = if thorough { 12000 } else { 1000 };
     let lens = [8u64, 16, 32, 64, 1, 3, 24];
     for c in 0..n_random {
         let kind = if c % 2 == 0 && ring_ok { "ring" } else { "fb" };
